@@ -56,6 +56,7 @@ unsigned g_kfault_pct = 0;
 std::map<std::string, uint64_t> g_kfaults_fired;
 const int FAKE_FD_URANDOM = 1000, FAKE_FD_RANDOM = 1001;
 int g_open_fds = 0;
+bool g_fd_open[2] = {false, false}; // simulated descriptor table: a closed descriptor is EBADF, as in a real kernel
 
 void kernel_serve(void *buf, size_t n) {
     g_src.log.push_back({'k', n, g_src.pos});
@@ -88,10 +89,12 @@ int h_open(const char *path, int flags, mode_t) {
     else if (g_kfault_pct && g_kfault.below(100) < g_kfault_pct) { g_kfaults_fired["open_eintr"]++; errno = EINTR; return -1; }
     g_open_fds++;
     (void) flags;
+    g_fd_open[ur ? 0 : 1] = true;
     return ur ? FAKE_FD_URANDOM : FAKE_FD_RANDOM;
 }
 ssize_t h_read(int fd, void *buf, size_t n) {
     if (fd != FAKE_FD_URANDOM && fd != FAKE_FD_RANDOM) { errno = EBADF; return -1; }
+    if (!g_fd_open[fd - FAKE_FD_URANDOM]) { g_kfaults_fired["read_on_closed_fd"]++; errno = EBADF; return -1; }
     if (!g_kernel_mode) { AMB.hit("read_dev_random"); AMB.rng.fill(buf, n); return (ssize_t) n; }
     if (g_kfault_pct && g_kfault.below(100) < g_kfault_pct) {
         unsigned c = (unsigned) g_kfault.below(4);
@@ -115,9 +118,12 @@ ssize_t h_read(int fd, void *buf, size_t n) {
     kernel_serve(buf, n);
     return (ssize_t) n;
 }
-int h_close(int fd) { if (fd == FAKE_FD_URANDOM || fd == FAKE_FD_RANDOM) { g_open_fds--; return 0; } errno = EBADF; return -1; }
+int h_close(int fd) {
+    if ((fd == FAKE_FD_URANDOM || fd == FAKE_FD_RANDOM) && g_fd_open[fd - FAKE_FD_URANDOM]) { g_open_fds--; g_fd_open[fd - FAKE_FD_URANDOM] = false; return 0; }
+    errno = EBADF; return -1;
+}
 int h_fstat(int fd, struct stat *st) {
-    if (fd != FAKE_FD_URANDOM && fd != FAKE_FD_RANDOM) { errno = EBADF; return -1; }
+    if ((fd != FAKE_FD_URANDOM && fd != FAKE_FD_RANDOM) || !g_fd_open[fd - FAKE_FD_URANDOM]) { errno = EBADF; return -1; }
     memset(st, 0, sizeof *st);
     st->st_mode = S_IFCHR | 0666;
     return 0;
